@@ -174,7 +174,7 @@ func (Engine) Execute(planJSON json.RawMessage, scratch string) (res sim.RunResu
 	switch p.Prop {
 	case "C07":
 		res.NonTriv = c["c07_merge_checks"] > 0
-	case "C05":
+	case "C05", "C08":
 		res.NonTriv = c["c10_complete_checks"] > 0 && len(s.capt.Files) > 1
 	case "C10":
 		res.NonTriv = c["c10_stable_checks"] > 0 && (c["probe_view_opened_during_jobs"] > 0 || c["probe_view_held_across_merge"] > 0)
